@@ -70,7 +70,7 @@ def check_arith(ctx, op, ptag, gsize, itag, log, wide=False):
     size = 1 << log
     p = ctx.sym("p", 64)
     inreg = ctx.in_region(p, base, size)
-    nullable = op not in ("idx", "addridx")
+    nullable = True      # p[n] and &p[n] on a null pointer must abort like every other form
     ctx.assume(z3.Or(p == 0, inreg) if nullable else inreg)
     args = [base, p]
     if op in OPS1:
